@@ -367,6 +367,10 @@ def before (f a b : String) : Bool :=
 
 def has (f a : String) : Bool := (toks f).contains a
 
+/-- how often ` + "`t`" + ` occurs after the first ` + "`a`" + ` and before the next ` + "`b`" + ` -/
+def countBetween (f a b t : String) : Nat :=
+  ((((toks f).dropWhile (· ≠ a)).drop 1).takeWhile (· ≠ b)).count t
+
 /-- every occurrence of ` + "`a`" + ` in ` + "`f`" + ` is directly preceded by ` + "`b`" + `, and ` + "`a`" + ` occurs -/
 def precededByL (a b : String) : List String → Bool
   | x :: y :: rest => (y != a || x == b) && precededByL a b (y :: rest)
@@ -416,6 +420,13 @@ theorem runPeer_take_blocks :
 theorem runPeer_reject_returns_slot :
     (before "Syncer.runPeer" "call s.acquireInflight" "recv inflight" &&
      before "Syncer.runPeer" "recv inflight" "continue") = true := by decide
+/-- between acquireInflight and the start of the handler there is exactly ONE way out of the loop
+body, the over-budget branch (which holds no subnet slot): no path that has acquired the subnet
+slot leaves without the handler, whose deferred calls release it -/
+theorem runPeer_only_reject_exit_before_handler :
+    (countBetween "Syncer.runPeer" "call s.acquireInflight" "event s.h.start" "continue" == 1 &&
+     countBetween "Syncer.runPeer" "call s.acquireInflight" "event s.h.start" "return" == 0 &&
+     countBetween "Syncer.runPeer" "call s.acquireInflight" "event s.h.start" "recv inflight" == 1) = true := by decide
 /-- handler: both releases are deferred BEFORE tg.Add is attempted, so the exit
 "thread group already closed" returns both slots; the subnet slot is released (deferred later,
 hence run earlier) before the per-peer slot; the hook precedes the per-peer release -/
